@@ -18,7 +18,7 @@ from wannierberri.symmetry.point_symmetry import transform_ident
 
 PROPERTY = "C13"
 FUNCTIONS = ["wannierberri.calculators.static.StaticCalculator.__init__/__call__ (non-tetra branch, additive and non-additive formulas, k_resolved)",
-             "wannierberri.calculators.static.CumDOS/DOS with the real formula Identity", "Data_K.get_bands_in_range_groups(_ik)",
+             "wannierberri.calculators.static.CumDOS/DOS with the real formula Identity", "StaticCalculator tetra=True branch + TetraWeights.weights_all_band_groups (kernel abstracted)", "Data_K.get_bands_in_range_groups(_ik)",
              "tetrahedron.get_bands_in_range/get_borders/get_bands_below_range", "utility.weight_select_bands", "EnergyResult / K__Result construction"]
 BOUNDS = dict(quick=dict(nb="2..3", nk="1 (2 for nb=2)", fermi_levels="3 on a uniform grid e0 + j*h with symbolic e0, h", fder="0..3", thresholds="symbolic degen_thresh>0",
                          formulas="stub additive (per-band atoms) and non-additive (per-boundary atoms), rank 0; real Identity for DOS/CumDOS"),
@@ -29,7 +29,7 @@ EXPLANATION = ("StaticCalculator.__call__ runs on a Data_K shell with symbolic s
                "that k-resolved sums to unresolved, and the CumDOS limits and monotonicity.")
 ASSUMPTIONS = ["band energies sorted ascending per k (eigh contract)", "uniform Fermi grid with spacing 1e-3 <= h <= 4 (documented: evenly spaced)",
                "no group mean lies exactly on a Fermi level of the extended grid (the property is silent about the tie)", "|E|,|e0| <= 8", "0 < degen_thresh"]
-OUTSIDE = ["tetra=True branch (weights are C14)", "hole_like", "nb > 4, more than 4 Fermi levels", "IEEE rounding of ceil((E-EFmin)/dEF)"]
+OUTSIDE = ["tetra=True: the weights themselves are C14 (here the kernel is an uninterpreted symmetric function; only the accumulation is decided), nb=2 only", "hole_like", "nb > 4, more than 4 Fermi levels", "IEEE rounding of ceil((E-EFmin)/dEF)"]
 STUBS = ["math.ceil in calculators.static -> forking ceil (smallest integer j >= x found by comparisons)", "Formula stubs with symbolic traces"]
 
 
@@ -229,6 +229,68 @@ def case_cumdos(rec, nb, nk, nEF):
     rec.explore(body, ass, maxpaths=40000)
 
 
+def case_tetra(rec, nb, fder, degenerate):
+    """StaticCalculator(tetra=True): accumulation of the tetrahedron group weights (kernel abstracted as in the C14 composition cases)"""
+    from props.c14 import KernelStub, box
+    setup()
+    cen = symvec("c", (1, nb))
+    cor = symvec("k", (1, 4, nb))
+    ef = symvec("f", (2,))
+    thr = SymC.var("thr", 1e-9, 1)
+    vals = symvec("v", (1, nb))
+    vol = 2.0
+    ass = box(list(cen.flat) + list(cor.flat) + list(ef)) + [thr.zreal() > 0, thr.zreal() < z3.Q(1, 100), ef[0].zreal() < ef[1].zreal()]
+    for b in range(nb):
+        for i in range(3):
+            ass.append(cor[0, i, b].zreal() + 1e-6 <= cor[0, i + 1, b].zreal())
+        ass += [cen[0, b].zreal() > cor[0, 0, b].zreal(), cen[0, b].zreal() < cor[0, 3, b].zreal()]
+        for j in range(2):
+            ass += [ef[j].zreal() != cor[0, i, b].zreal() for i in range(4)]
+    for b in range(nb - 1):
+        gap = cen[0, b + 1].zreal() - cen[0, b].zreal()
+        ass.append(z3.And(gap >= 0, gap < thr.zreal()) if (degenerate and b == 0) else gap > thr.zreal())
+        for i in range(4):
+            ass.append(cor[0, i, b].zreal() <= cor[0, i, b + 1].zreal())
+
+    class StubFormula:
+        ndim = 0
+        transformTR = transform_ident
+        transformInv = transform_ident
+        additive = True
+
+        def __init__(s, data_K, **kw):
+            pass
+
+        def trace(s, ik, inn, out):
+            tot = SymC.of(0)
+            for i in inn:
+                tot = tot + vals[ik, int(i)]
+            return sarr(tot)
+
+    def body(rec):
+        rec.witness = lambda env: dict(test="tetra", nb=nb, fder=fder, degenerate=degenerate, cen=env.val(cen), cor=env.val(cor), ef=env.val(ef), thr=env.val(thr), vals=env.val(vals), vol=vol)
+        K = T.weights_tetra = KernelStub()
+        dk = mk_shell(cen.copy(), vol)
+        dk.__dict__['tetraWeights'] = T.TetraWeights(cen.copy(), cor.copy())
+        calc = ST.StaticCalculator(Efermi=ef, Formula=StubFormula, fder=fder, tetra=True, degen_thresh=thr, save_mode="")
+        res = calc(dk).data
+        K2 = KernelStub()
+        K2.atoms = K.atoms
+        groups = [(0, 2)] + [(b, b + 1) for b in range(2, nb)] if degenerate else [(b, b + 1) for b in range(nb)]
+        for j in range(2):
+            want = SymC.of(0)
+            for a, b_ in groups:
+                w = SymC.of(0)
+                v = SymC.of(0)
+                for b in range(a, b_):
+                    w = w + K2(sarr([ef[j]]), *[cor[0, i, b] for i in range(4)], der=fder)[0]
+                    v = v + vals[0, b]
+                want = want + w / (b_ - a) * v
+            rec.eq(f"tetra fder={fder}: result(ef_{j}) == sum_groups mean tetrahedron weight x group value / (nk V)", res[j], want / SymC.of(vol),
+                   key=f"StaticCalculator(tetra=True) fder={fder}: accumulation of group weights differs from the documented sum")
+    rec.explore(body, ass, maxpaths=60000)
+
+
 def cases(tier, seed):
     q = tier == "quick"
     out = []
@@ -245,6 +307,9 @@ def cases(tier, seed):
         out.append(Case(f"sea nb=2 nk=2 fder={fder}", case_sea, dict(nb=2, nk=2, nEF=2, fder=fder, additive=fder == 0), timeout=1200 if q else 3000))
     out.append(Case("sea nb=3 select=[0,2] fder=1", case_sea, dict(nb=3, nk=1, nEF=2, fder=1, additive=True, select=[0, 2]), timeout=1200))
     out.append(Case("sea nb=2 select=[1] fder=0 refused", case_sea, dict(nb=2, nk=1, nEF=2, fder=0, additive=True, select=[1]), timeout=600))
+    for fder in (0, 1):
+        out.append(Case(f"tetra nb=2 fder={fder}", case_tetra, dict(nb=2, fder=fder, degenerate=False), timeout=1200 if q else 3000))
+    out.append(Case("tetra nb=2 fder=0 degenerate pair", case_tetra, dict(nb=2, fder=0, degenerate=True), timeout=1200 if q else 3000))
     for nb, nk in ((2, 1), (3, 1), (2, 2)) + (() if q else ((4, 1),)):
         out.append(Case(f"cumdos nb={nb} nk={nk}", case_cumdos, dict(nb=nb, nk=nk, nEF=3), timeout=1200 if q else 3000))
     return out
@@ -261,6 +326,31 @@ def replay(rec):
     def groups(Ek):
         borders = [0] + [i for i in range(1, nb) if Ek[i] - Ek[i - 1] > thr] + [nb]
         return list(zip(borders, borders[1:]))
+    if w["test"] == "tetra":
+        nb = w["nb"]
+        cen, cor, ef = np.array(w["cen"], float).reshape(1, nb), np.array(w["cor"], float).reshape(1, 4, nb), np.array(w["ef"], float)
+        vals = np.array(w["vals"], float).reshape(1, nb)
+        if np.abs(vals).max() == 0:
+            vals = 1.0 + np.arange(nb, dtype=float).reshape(1, nb)
+        thr, fder, vol = w["thr"], w["fder"], w["vol"]
+
+        class StubFormulaT:
+            ndim = 0
+            transformTR = transform_ident
+            transformInv = transform_ident
+            additive = True
+            def __init__(s, data_K, **kw): pass
+            def trace(s, ik, inn, out): return np.array(vals[ik, list(inn)].sum())
+        dk = mk_shell(cen, vol)
+        dk.__dict__['tetraWeights'] = T.TetraWeights(cen, cor)
+        res = ST.StaticCalculator(Efermi=ef, Formula=StubFormulaT, fder=fder, tetra=True, degen_thresh=thr, save_mode="")(dk).data
+        groups = [(0, 2)] + [(b, b + 1) for b in range(2, nb)] if w["degenerate"] else [(b, b + 1) for b in range(nb)]
+        want = np.zeros(2)
+        for a, b_ in groups:
+            wsum = sum(T.weights_tetra(ef, *cor[0, :, b], der=fder) for b in range(a, b_)) / (b_ - a)
+            want += wsum * vals[0, a:b_].sum()
+        want /= vol
+        return bool(np.abs(res - want).max() > 1e-7 * max(1, np.abs(want).max())), f"tetra fder={fder}: {res.tolist()} expected {want.tolist()}"
     if w["test"] == "cumdos":
         res = ST.CumDOS(Efermi=Ef, degen_thresh=thr, save_mode="")(mk_shell(E, 2.0)).data
         bad = np.any(np.diff(res) < -1e-12) or np.any(res < -1e-12) or np.any(res > nb + 1e-12)
